@@ -875,7 +875,20 @@ def main(tier, seed, log=print):
                 log("[C07] layer A violation (%s) at sub-seed %s; confirming and minimising ..." % (case.get("violation"), case.get("subseed")))
                 ex, _, _ = native_run(cache, opt, "replay", case, outdir, "confirm")
                 if ex != 1:
-                    raise core.HarnessError("native violation did not reproduce from its own trace (exit %s)" % ex)
+                    # The case alone, replayed from its own trace in a fresh process, is clean: the deviation needs what earlier
+                    # cases of the batch left behind in the process (state that survives between calls of the routines).  The
+                    # batch, re-generated from its start in a fresh driver process, is then the replay unit.
+                    again = layerA_task(cache, opt, seed, viol["frm"], viol["count"], outdir, "confirm-batch", 600)
+                    if again["exit"] != 1:
+                        raise core.HarnessError("native violation reproduces neither from its own trace (exit %s) nor from its batch" % ex)
+                    rep = {"layer": "A", "opt": opt, "batch": [seed, viol["frm"], viol["count"]], "property": PROP, "violation": case.get("violation"),
+                           "case_as_found": case, "note": "reproduces only when the earlier cases of its batch ran in the same process (state surviving between calls)",
+                           "how_to_replay": "./check C07 --replay <this file>"}
+                    path = core.save_replay(PROP, "A-%s-%s-batch" % (seed, case.get("subseed")), rep)
+                    log("[C07] layer A violation reproduces only inside its batch: the batch is the replay unit")
+                    new_violations.append(path)
+                    samples.append({"layer": "A", "violating_case": case.get("fnname"), "class": case.get("violation")})
+                    continue
                 small = minimise_native(cache, opt, case, outdir, case.get("violation"), log)
                 small["opt"] = opt
                 small["layer"] = "A"
@@ -1066,6 +1079,18 @@ def replay(path, log=print):
     cache = build.ensure_build()
     with open(path) as f:
         c = json.load(f)
+    if c.get("layer") == "A" and "batch" in c:
+        outdir = _scratch_dir("c07r")
+        try:
+            seed, frm, count = c["batch"]
+            r = layerA_task(cache, c.get("opt", "O0"), seed, frm, count, outdir, "replay-batch", 600)
+        finally:
+            shutil.rmtree(outdir, ignore_errors=True)
+        if r["exit"] == 1:
+            print("VIOLATION property=%s replay=%s (batch replay)" % (PROP, path))
+            sys.exit(1)
+        print("OK replay passes")
+        sys.exit(0)
     if c.get("layer") == "A":
         outdir = _scratch_dir("c07r")
         try:
